@@ -472,3 +472,47 @@ def shutdown_search(repo, prop, tier, seed=1):
             shutil.rmtree(os.path.join(WORK_BASE, "des-drivers-target-" + tag), ignore_errors=True)
         fcntl.flock(lockf, fcntl.LOCK_UN)
         lockf.close()
+
+
+def panic_search(repo, prop, tier, seed=1):
+    """C13 bounded replay (replay/panic_driver): a module that panics at a chosen point, on the real `des` crate."""
+    t0 = time.time()
+    os.makedirs(WORK_BASE, exist_ok=True)
+    lockf = open(os.path.join(WORK_BASE, "rt_driver.lock"), "w")
+    fcntl.flock(lockf, fcntl.LOCK_EX)
+    try:
+        count = 200000 if tier == "thorough" else 10000
+        res = {"what": "bounded replay of C13 on the real `des` crate: %d seeded random scenarios - module f (1..3 start-up stages, a ticking task, echoes every message it gets from g) panics in a start-up stage, at its 1st..4th message, in its tear-down, or never, with or without a stereotype that catches panics; g also feeds h over a direct link and h ticks. Compared event for event (module, what, time): f's stages / messages / ticks up to the panic and none afterwards during the run, g's echoes only for messages f handled, h completely undisturbed, g and h torn down exactly once; run() must return (never unwind) and list exactly 'module f panicked' iff an uncaught panic happened; after every scenario a plain second simulation must behave normally in the same process" % count,
+               "bound": "%d random scenarios (each followed by a control simulation); seed %d" % (count, seed), "labelled": "bounded", "counts_as_proof": False}
+        exe, err = _build_rt(repo, "panic_driver")
+        if exe is None:
+            res.update({"status": "not_run", "reason": "driver does not build against this tree: " + err, "wall_s": round(time.time() - t0, 2)})
+            return res
+        try:
+            p = subprocess.run([exe, "search", str(count), str(seed)], stdout=subprocess.PIPE, stderr=subprocess.PIPE, timeout=900)
+        except subprocess.TimeoutExpired:
+            res.update({"status": "mismatch", "mismatch": {"mismatch": True, "kind": "scenario-does-not-return", "props": "C13", "expected": "every scenario terminates", "observed": "no result within 900 s"}, "wall_s": round(time.time() - t0, 2)})
+            return res
+        line = (p.stdout.decode("utf8", "replace").strip().splitlines() or ["{}"])[-1]
+        try:
+            j = json.loads(line)
+        except Exception:
+            j = {}
+        res["wall_s"] = round(time.time() - t0, 2)
+        res["cmd"] = "panic_driver search %d %d   (built from replay/panic_driver against %s/des)" % (count, seed, repo)
+        if j.get("mismatch"):
+            res.update({"status": "mismatch", "mismatch": j})
+        elif "scenarios" in j:
+            res.update({"status": "no_mismatch", "scenarios": j["scenarios"], "sample": j.get("sample")})
+        elif p.returncode != 0:
+            res.update({"status": "mismatch", "mismatch": {"mismatch": True, "kind": "simulator-aborted", "props": "C13", "expected": "a module panic never aborts the simulator", "observed": ("the driver process ended with status %d: " % p.returncode + p.stderr.decode("utf8", "replace")[-300:]).replace('"', "'")}})
+        else:
+            res.update({"status": "not_run", "reason": "driver crashed: " + p.stderr.decode("utf8", "replace")[-300:]})
+        return res
+    finally:
+        if repo != "/repo" and not os.environ.get("VERIF_KEEP_CACHE"):
+            tag = hashlib.sha1(repo.encode()).hexdigest()[:8]
+            shutil.rmtree(os.path.join(WORK_BASE, "panic_driver-" + tag), ignore_errors=True)
+            shutil.rmtree(os.path.join(WORK_BASE, "des-drivers-target-" + tag), ignore_errors=True)
+        fcntl.flock(lockf, fcntl.LOCK_UN)
+        lockf.close()
